@@ -706,4 +706,161 @@ Section Sim.
         destruct HL as (Hl1 & Hi1). right. split; [apply Hl1|]. split; [exact Hl1|]. left. exact Hi1.
   Qed.
 
+  (* ---- one iteration of the loop of read_decode ------------------------------------------------ *)
+  Lemma iter_sim st s o len : SInv st s o -> 0 < len ->
+    match lzma2_iter s len with
+    | Ok (out, s') =>
+        (out = [] /\ m_end_reached s' = true /\ m_error s' = None /\ o = Some ([], m_in s')) \/
+        step_post st o len out s'
+    | _ => o = None
+    end.
+  Proof.
+    intros (Hlive & [(d & Hb & Ho) | [Hu | Hl]]) Hlen; rewrite lzma2_iter_eq.
+    - pose proof Hb as (Hus & _). rewrite Hus. change (0 =? 0) with true. cbv iota.
+      pose proof (header_sim st s d Hlive Hb) as HH. rewrite <- Ho in HH.
+      destruct (lzma2_chunk_header s) as [s1|e|e|]; cbn [obind]; try exact HH.
+      destruct HH as [(He & Herr1 & Had) | (He & Hl1 & [Hu1 | Hl1'])]; rewrite He.
+      + left. auto.
+      + pose proof (body_unc st s1 o len Hl1 Hu1 Hlen) as HB.
+        destruct (iter_body s1 len) as [[out s']|e|e|]; try exact HB. right. exact HB.
+      + pose proof (body_lzma st s1 o len Hl1 Hl1' Hlen) as HB.
+        destruct (iter_body s1 len) as [[out s']|e|e|]; try exact HB. right. exact HB.
+    - pose proof Hu as (u & hist & co & t & np & Hu0 & Hus & _).
+      rewrite Hus. destruct (Z.eqb_spec u 0) as [X|_]; [lia|]. cbn [obind].
+      destruct Hlive as (Hend & Hrest). rewrite Hend.
+      pose proof (body_unc st s o len (conj Hend Hrest) Hu Hlen) as HB.
+      destruct (iter_body s len) as [[out s']|e|e|]; try exact HB. right. exact HB.
+    - pose proof Hl as (u & c & hist & Hu0 & Hus & _).
+      rewrite Hus. destruct (Z.eqb_spec u 0) as [X|_]; [lia|]. cbn [obind].
+      destruct Hlive as (Hend & Hrest). rewrite Hend.
+      pose proof (body_lzma st s o len (conj Hend Hrest) Hl Hlen) as HB.
+      destruct (iter_body s len) as [[out s']|e|e|]; try exact HB. right. exact HB.
+  Qed.
+
+  (* ---- from a read history to the specification ("completeness") ------------------------------- *)
+  Lemma loop_comp : forall fuel st s len acc o res s1,
+    SInv st s o -> 0 <= len -> lzma2_read_loop fuel s len acc = Ok (res, s1) ->
+    exists out, res = rev acc ++ out /\
+      ((m_end_reached s1 = true /\ m_error s1 = None /\ o = Some (out, m_in s1)) \/
+       (m_end_reached s1 = false /\ zlen out = len /\ exists st1 o1, SInv st1 s1 o1 /\ o = oapp out o1)).
+  Proof.
+    induction fuel as [|f IH]; intros st s len acc o res s1 HI Hlen Hr.
+    - cbn [lzma2_read_loop] in Hr. destruct (Z.leb_spec len 0) as [Hle|Hgt]; [|discriminate].
+      inversion Hr; subst res s1. exists []. rewrite frev_rev, app_nil_r. split; [reflexivity|].
+      right. split; [apply (SInv_live st s o HI)|]. split; [change (zlen (@nil Z)) with 0; lia|].
+      exists st, o. split; [exact HI | symmetry; apply oapp_nil].
+    - destruct (Z.eq_dec len 0) as [Hz|Hnz].
+      + rewrite l2_read_loop_done in Hr by lia. inversion Hr; subst res s1.
+        exists []. rewrite frev_rev, app_nil_r. split; [reflexivity|].
+        right. split; [apply (SInv_live st s o HI)|]. split; [change (zlen (@nil Z)) with 0; lia|].
+        exists st, o. split; [exact HI | symmetry; apply oapp_nil].
+      + rewrite l2_read_loop_step in Hr by lia.
+        pose proof (iter_sim st s o len HI ltac:(lia)) as HS.
+        destruct (lzma2_iter s len) as [[out s']|e|e|]; cbn [obind] in Hr; try discriminate.
+        destruct HS as [(Hout & He & Herr & Ho) | (Hne & Hle & o' & HI' & Ho)].
+        * rewrite He in Hr. inversion Hr; subst res s1. exists []. rewrite frev_rev, app_nil_r.
+          split; [reflexivity|]. left. auto.
+        * destruct (SInv_live true s' o' HI') as (He' & _). rewrite He' in Hr.
+          pose proof (zlen_nonneg out) as Hzn.
+          destruct (IH true s' (len - zlen out) (rev_append out acc) o' res s1 HI' ltac:(lia) Hr)
+            as (out2 & Hres & Hcase).
+          exists (out ++ out2). rewrite Hres, l2_rev_rev_append, <- app_assoc. split; [reflexivity|].
+          destruct Hcase as [(E1 & E2 & E3) | (E1 & E2 & st1 & o1 & E3 & E4)].
+          -- left. split; [exact E1|]. split; [exact E2|]. rewrite Ho, E3. reflexivity.
+          -- right. split; [exact E1|]. split; [rewrite zlen_app; lia|].
+             exists st1, o1. split; [exact E3|]. rewrite Ho, E4. symmetry. apply oapp_app.
+  Qed.
+
+  Lemma read_comp st s o sz out s1 : SInv st s o -> 0 < sz -> lzma2_read s sz = Ok (out, s1) ->
+    (m_end_reached s1 = true /\ m_error s1 = None /\ o = Some (out, m_in s1)) \/
+    (m_end_reached s1 = false /\ zlen out = sz /\ exists st1 o1, SInv st1 s1 o1 /\ o = oapp out o1).
+  Proof.
+    intros HI Hsz Hr. destruct (SInv_live st s o HI) as (He & Herr).
+    rewrite l2_read_live in Hr by assumption.
+    destruct (loop_comp _ st s sz [] o out s1 HI ltac:(lia) Hr) as (out' & Hout & Hcase).
+    cbn [rev app] in Hout. subst out'. exact Hcase.
+  Qed.
+
+  Lemma read_all_comp : forall fuel st s sizes all acc o res stt s_end,
+    SInv st s o -> Forall (fun z => 0 < z) sizes -> Forall (fun z => 0 < z) all ->
+    lzma2_read_all fuel s sizes all acc = Ok (res, stt, s_end) -> m_end_reached s_end = true ->
+    exists data, o = Some (data, m_in s_end) /\ res = rev acc ++ data /\ stt = 0 /\ m_error s_end = None.
+  Proof.
+    induction fuel as [|f IH]; intros st s sizes all acc o res stt s_end HI Hs Ha Hr Hend; [discriminate|].
+    destruct (l2_next_pos sizes all Hs Ha) as (Hsz & Hnext).
+    rewrite l2_read_all_step in Hr.
+    destruct (lzma2_read s (fst (l2_next sizes all))) as [[out s1]|e|e|] eqn:Hread; try discriminate.
+    2:{ inversion Hr; subst res stt s_end. destruct (SInv_live st s o HI) as (He & _).
+        unfold lzma2_set_error in Hend. cbn [m_end_reached] in Hend. congruence. }
+    destruct (read_comp st s o _ out s1 HI Hsz Hread) as [(E1 & E2 & E3) | (E1 & E2 & st1 & o1 & E3 & E4)].
+    - (* the end marker was reached in this call *)
+      destruct (Z.ltb_spec 0 (fst (l2_next sizes all))) as [_|X]; [|lia]. cbn [andb] in Hr.
+      destruct (Z.eqb_spec (zlen out) 0) as [Hz|Hnz].
+      + inversion Hr; subst res stt s_end. apply l2_zlen_zero in Hz. subst out.
+        exists []. rewrite frev_rev, app_nil_r. auto.
+      + destruct f as [|f']; [discriminate|].
+        rewrite (read_all_ended (m_in s1) f' s1 _ all (rev_append out acc)) in Hr.
+        * inversion Hr; subst res stt s_end. exists out. rewrite frev_rev, l2_rev_rev_append. auto.
+        * split; [exact E1|]. split; [exact E2 | reflexivity].
+        * exact Hnext.
+        * exact Ha.
+    - destruct (Z.ltb_spec 0 (fst (l2_next sizes all))) as [_|X]; [|lia]. cbn [andb] in Hr.
+      destruct (Z.eqb_spec (zlen out) 0) as [Hz|Hnz]; [lia|].
+      destruct (IH st1 s1 _ all (rev_append out acc) o1 res stt s_end E3 Hnext Ha Hr Hend) as (data & D1 & D2 & D3 & D4).
+      exists (out ++ data). rewrite E4, D1, D2, l2_rev_rev_append, <- app_assoc. auto.
+  Qed.
+
+  (* ---- from the specification to every read history ("soundness") ------------------------------- *)
+  Section Sound.
+    Variable tail : list Z.
+    Definition RInv (st : bool) (s : lzma2) (rem : list Z) : Prop := SInv st s (Some (rem, tail)).
+
+    Lemma RInv_live st s rem : RInv st s rem -> m_end_reached s = false /\ m_error s = None.
+    Proof. apply SInv_live. Qed.
+
+    Lemma riter_gen st s rem len : RInv st s rem -> 0 < len ->
+      exists out s', lzma2_iter s len = Ok (out, s') /\
+        ((rem = [] /\ out = [] /\ Ended tail s') \/
+         ((st = true -> out <> []) /\ zlen out <= len /\ exists rem', rem = out ++ rem' /\ RInv true s' rem')).
+    Proof.
+      intros HI Hlen. pose proof (iter_sim st s _ len HI Hlen) as HS.
+      destruct (lzma2_iter s len) as [[out s']|e|e|]; try discriminate.
+      exists out, s'. split; [reflexivity|].
+      destruct HS as [(Hout & He & Herr & Ho) | (Hne & Hle & o' & HI' & Ho)].
+      - inversion Ho. left. split; [reflexivity|]. split; [exact Hout|]. split; [exact He|]. split; [exact Herr | congruence].
+      - right. split; [exact Hne|]. split; [exact Hle|].
+        destruct o' as [[rem' tl']|]; [|discriminate]. cbn [oapp] in Ho. inversion Ho; subst.
+        exists rem'. split; [reflexivity | exact HI'].
+    Qed.
+
+    Lemma riter_step s rem len : RInv true s rem -> 0 < len ->
+      exists out s', lzma2_iter s len = Ok (out, s') /\
+        ((rem = [] /\ out = [] /\ Ended tail s') \/
+         (out <> [] /\ zlen out <= len /\ exists rem', rem = out ++ rem' /\ RInv true s' rem')).
+    Proof.
+      intros HI Hlen. destruct (riter_gen true s rem len HI Hlen) as (out & s' & H1 & [H2 | (H2 & H3)]).
+      - exists out, s'. split; [exact H1|]. left. exact H2.
+      - exists out, s'. split; [exact H1|]. right. split; [apply H2; reflexivity | exact H3].
+    Qed.
+
+    Lemma riter_step0 st s rem len : RInv st s rem -> 0 < len ->
+      exists out s', lzma2_iter s len = Ok (out, s') /\
+        ((rem = [] /\ out = [] /\ Ended tail s') \/
+         (zlen out <= len /\ exists rem', rem = out ++ rem' /\ RInv true s' rem')).
+    Proof.
+      intros HI Hlen. destruct (riter_gen st s rem len HI Hlen) as (out & s' & H1 & [H2 | (_ & H3)]).
+      - exists out, s'. split; [exact H1|]. left. exact H2.
+      - exists out, s'. split; [exact H1|]. right. exact H3.
+    Qed.
+
+    Theorem read_all_sound st s rem sizes fuel :
+      RInv st s rem -> Forall (fun z => 0 < z) sizes -> (length rem + 2 <= fuel)%nat ->
+      exists s_end, lzma2_read_all fuel s sizes sizes [] = Ok (rem, 0, s_end) /\ Ended tail s_end.
+    Proof.
+      intros HI Hsz Hf.
+      exact (read_all_ok0 (RInv true) (RInv st) tail (RInv_live true) riter_step (RInv_live st) (riter_step0 st)
+               fuel s rem sizes sizes [] HI Hsz Hsz Hf).
+    Qed.
+  End Sound.
+
 End Sim.
